@@ -33,6 +33,9 @@ pub enum Field {
     Percent,
     Money,
     Text,
+    /// a quantity of a user-defined family: `{DYNAMIC_TYPE:n:<family>}` (or `{DYNAMIC_TYPE:n}` without a family filter);
+    /// the probe line writes the quantity with the unit of the given index
+    Unit(Option<u8>, u8),
 }
 
 /// A pattern: keyword(s) and one or two typed fields named n (and k)
@@ -67,6 +70,8 @@ impl Pattern {
             Field::Percent => format!("{{PERCENT:{}}}", name),
             Field::Money => format!("{{MONEY:{}}}", name),
             Field::Text => format!("{{TEXT:{}}}", name),
+            Field::Unit(Some(f), _) => format!("{{DYNAMIC_TYPE:{}:{}}}", name, FAMILY_NAMES[*f as usize % FAMILY_NAMES.len()]),
+            Field::Unit(None, _) => format!("{{DYNAMIC_TYPE:{}}}", name),
         }
     }
     pub fn text(&self, lang: &str) -> String {
@@ -96,6 +101,7 @@ impl Pattern {
             Field::Percent => format!("{}%", nv),
             Field::Money => format!("{} usd", nv),
             Field::Text => "garply".to_string(),
+            Field::Unit(_, u) => format!("{} {}", nv, UNIT_NAMES[u as usize % UNIT_NAMES.len()]),
         };
         match self.layout % 6 {
             0 => format!("{} {}", kw, n),
@@ -143,6 +149,7 @@ fn field_value(fields: &BTreeMap<String, TokenType>, name: &str) -> Option<f64> 
         Some(TokenType::Percent(p)) => Some(*p),
         Some(TokenType::Money(m, _)) => Some(*m),
         Some(TokenType::Text(t)) => Some(t.len() as f64),
+        Some(TokenType::DynamicType(n, _)) => Some(*n),
         _ => None,
     }
 }
@@ -190,6 +197,36 @@ pub struct ItemSpec {
     /// factor to the item below (downgrade) and to the item above (upgrade)
     pub down: u8,
     pub up: u8,
+    /// names of the unit: 0 one name, 1 [name, alias], 2 [alias, name] (the alias is "a" + name, so 1 is NOT in
+    /// alphabetical order and 2 is)
+    #[serde(default)]
+    pub names: u8,
+}
+
+fn alias(unit: &str) -> String {
+    format!("a{}", unit)
+}
+
+impl ItemSpec {
+    fn unit(&self) -> &'static str {
+        UNIT_NAMES[self.unit as usize % UNIT_NAMES.len()]
+    }
+    fn all_names(&self) -> Vec<String> {
+        let u = self.unit().to_string();
+        match self.names % 3 {
+            0 => vec![u],
+            1 => vec![u.clone(), alias(&u)],
+            _ => vec![alias(&u), u],
+        }
+    }
+    /// the name a line uses: the alias when the unit has one and `pick` is odd
+    fn written(&self, pick: u32) -> String {
+        if self.names % 3 != 0 && pick % 2 == 1 {
+            alias(self.unit())
+        } else {
+            self.unit().to_string()
+        }
+    }
 }
 
 #[derive(Clone, Debug, Serialize, Deserialize)]
@@ -228,10 +265,11 @@ fn register_item(calc: &mut SmartCalc, it: &ItemSpec) -> Result<bool, String> {
     let fam = FAMILY_NAMES[it.family as usize % FAMILY_NAMES.len()];
     let unit = UNIT_NAMES[it.unit as usize % UNIT_NAMES.len()];
     let format = format!("{{value}} {}", unit);
-    let parse = vec![format!("{{NUMBER:value}} {{TEXT:type:{}}}", unit)];
+    let names = it.all_names();
+    let parse: Vec<String> = names.iter().map(|n| format!("{{NUMBER:value}} {{TEXT:type:{}}}", n)).collect();
     let up = format!("{{value}} / {}", it.up.max(2));
     let down = format!("{{value}} * {}", it.down.max(2));
-    guarded(|| calc.add_dynamic_type_item(fam.to_string(), it.index as usize, format, parse, up, down, vec![unit.to_string()], None, None, None)).map_err(|p| format!("add_dynamic_type_item panicked at {}: {}", p.site, p.message))
+    guarded(|| calc.add_dynamic_type_item(fam.to_string(), it.index as usize, format, parse, up, down, names, None, None, None)).map_err(|p| format!("add_dynamic_type_item panicked at {}: {}", p.site, p.message))
 }
 
 /// the model of what has been registered successfully, in order
@@ -254,9 +292,14 @@ enum Reg {
     Item(ItemSpec),
 }
 
-fn build_fresh(m: &Model, deleted: &std::collections::BTreeSet<u64>) -> Result<SmartCalc, String> {
+/// `families_first`: the families and their items are registered before the rules (each kind in its own order)
+fn build_fresh(m: &Model, deleted: &std::collections::BTreeSet<u64>, families_first: bool) -> Result<SmartCalc, String> {
     let mut c = build_calc(&Cfg::default());
-    for r in &m.log {
+    let mut log: Vec<&Reg> = m.log.iter().collect();
+    if families_first {
+        log.sort_by_key(|r| matches!(r, Reg::Rule(..)));
+    }
+    for r in log {
         match r {
             Reg::Rule(lang, spec, id) => {
                 if !deleted.contains(id) {
@@ -272,6 +315,66 @@ fn build_fresh(m: &Model, deleted: &std::collections::BTreeSet<u64>) -> Result<S
         }
     }
     Ok(c)
+}
+
+/// effect: when exactly one live rule can match this line, the line evaluates to what that rule's behaviour computes
+/// from the NAMED fields; a declining rule leaves the line exactly as on a calculator without any rule
+fn effect(_calc: &SmartCalc, plain: &SmartCalc, m: &Model, lang: &str, p: &Pattern, nv: u32, kv: u32, got: &Slot) -> Result<(), String> {
+    let line = p.line(lang, nv, kv);
+    // every live pattern of that language that shares a keyword with the probe's pattern
+    let kws = |q: &Pattern| -> Vec<u8> {
+        if q.is_generic() {
+            return vec![];
+        }
+        let mut v = vec![q.kw % KEYWORDS.len() as u8];
+        if q.has_k() && q.layout % 6 == 3 {
+            v.push(q.kw2 % KEYWORDS.len() as u8);
+        }
+        v
+    };
+    let mine = kws(p);
+    let sharing: Vec<(&RuleSpec, &Pattern)> = m.rules.iter().filter(|(lg, _)| *lg == lang).flat_map(|(_, s)| s.patterns.iter().map(move |q| (s, q))).filter(|(_, q)| kws(q).iter().any(|k| mine.contains(k))).collect();
+    let candidates: Vec<&RuleSpec> = sharing.iter().map(|(s, _)| *s).collect();
+    // a quantity field is filled when the unit on the line is registered, in the family the field asks for
+    let unit_field = match &p.n {
+        Field::Unit(fam, u) => Some(m.items.iter().any(|x| x.unit % UNIT_NAMES.len() as u8 == *u % UNIT_NAMES.len() as u8 && fam.map_or(true, |f| f % FAMILY_NAMES.len() as u8 == x.family % FAMILY_NAMES.len() as u8))),
+        _ => None,
+    };
+    if unit_field == Some(false) {
+        return Ok(());
+    }
+    if sharing.len() == 1 && *sharing[0].1 == *p && p.n != Field::Text {
+        let spec = candidates[0];
+        let n = nv as f64;
+        let k = if p.has_k() { kv as f64 } else { 0.0 };
+        match behave(&spec.behaviour, n, k) {
+            Some(exp) => {
+                let ok = match (got, &exp) {
+                    (Slot::Ok { v: V::Num(a, _), .. }, V::Num(e, _)) => close(*a, *e),
+                    (Slot::Ok { v: V::Money(a, c), .. }, V::Money(e, ec)) => close(*a, *e) && c == ec,
+                    (Slot::Ok { v: V::Pct(a), .. }, V::Pct(e)) => close(*a, *e),
+                    (Slot::Ok { v: V::Dur(a, _), .. }, V::Dur(e, _)) => a == e,
+                    _ => false,
+                };
+                if !ok {
+                    return Err(format!("[{}] {:?} should evaluate to what rule {} returns ({:?} from n={}, k={}), got {}", lang, line, RULE_NAMES[spec.name as usize % 4], exp, n, k, got.brief()));
+                }
+            }
+            None if unit_field.is_none() => {
+                let base = eval_on(plain, lang, &line).ok().and_then(|o| o.slots.into_iter().next()).unwrap_or(Slot::Nothing);
+                if !base.same(got) {
+                    return Err(format!("[{}] {:?}: the rule declines, so the line should be as without the rule ({}), got {}", lang, line, base.brief(), got.brief()));
+                }
+            }
+            None => {}
+        }
+    } else if candidates.is_empty() && unit_field.is_none() {
+        let base = eval_on(plain, lang, &line).ok().and_then(|o| o.slots.into_iter().next()).unwrap_or(Slot::Nothing);
+        if !base.same(got) {
+            return Err(format!("[{}] {:?}: no live rule matches, so the line should be as on a calculator without rules ({}), got {}", lang, line, base.brief(), got.brief()));
+        }
+    }
+    Ok(())
 }
 
 const BUILTIN_PANEL: [&str; 13] = [
@@ -307,9 +410,9 @@ impl Prop for Registry {
 
         let plain_ref = &plain;
         let mut differential = |calc: &SmartCalc, m: &Model, deleted: &std::collections::BTreeSet<u64>, acc: &mut Acc, w: &mut Worker, why: &str| {
-            let fresh = match build_fresh(m, deleted) {
-                Ok(c) => c,
-                Err(e) => {
+            let (fresh, fresh_ff) = match (build_fresh(m, deleted, false), build_fresh(m, deleted, true)) {
+                (Ok(c), Ok(d)) => (c, d),
+                (Err(e), _) | (_, Err(e)) => {
                     acc.fail(e);
                     return;
                 }
@@ -324,6 +427,9 @@ impl Prop for Registry {
                 for jt in &m.items {
                     if jt.family == it.family {
                         panel.push(("en".to_string(), format!("24 {} to {}", u, UNIT_NAMES[jt.unit as usize % UNIT_NAMES.len()])));
+                        if it.names % 3 != 0 || jt.names % 3 != 0 {
+                            panel.push(("en".to_string(), format!("24 {} to {}", it.written(1), jt.written(1))));
+                        }
                     }
                 }
                 panel.push(("en".to_string(), format!("3 {} to km", u)));
@@ -350,19 +456,21 @@ impl Prop for Registry {
                 }
             }
             for (lang, line) in panel {
-                w.count_eval(2);
+                w.count_eval(3);
                 let a = eval_on(calc, &lang, &line);
-                let b = eval_on(&fresh, &lang, &line);
-                match (a, b) {
-                    (Ok(a), Ok(b)) => {
-                        if a.slots.len() != b.slots.len() || !a.slots.iter().zip(b.slots.iter()).all(|(x, y)| x.same(y)) {
-                            acc.fail(format!("{}: [{}] {:?} gives {} on the long-lived calculator but {} on a fresh calculator with only the surviving registrations", why, lang, line, a.slots.first().map(|s| s.brief()).unwrap_or_default(), b.slots.first().map(|s| s.brief()).unwrap_or_default()));
+                for (fr, what) in [(&fresh, "in their order"), (&fresh_ff, "the families before the rules")] {
+                    let b = eval_on(fr, &lang, &line);
+                    match (&a, &b) {
+                        (Ok(a), Ok(b)) => {
+                            if a.slots.len() != b.slots.len() || !a.slots.iter().zip(b.slots.iter()).all(|(x, y)| x.same(y)) {
+                                acc.fail(format!("{}: [{}] {:?} gives {} on the long-lived calculator but {} on a fresh calculator with only the surviving registrations ({})", why, lang, line, a.slots.first().map(|s| s.brief()).unwrap_or_default(), b.slots.first().map(|s| s.brief()).unwrap_or_default(), what));
+                                return;
+                            }
+                        }
+                        (Err(p), _) | (_, Err(p)) => {
+                            acc.fail(format!("{}: [{}] {:?} panicked at {}: {}", why, lang, line, p.site, p.message));
                             return;
                         }
-                    }
-                    (Err(p), _) | (_, Err(p)) => {
-                        acc.fail(format!("{}: [{}] {:?} panicked at {}: {}", why, lang, line, p.site, p.message));
-                        return;
                     }
                 }
             }
@@ -450,7 +558,7 @@ impl Prop for Registry {
                 }
                 Op::AddItem(it) => {
                     let fam = FAMILY_NAMES[it.family as usize % FAMILY_NAMES.len()];
-                    rendered.push_str(&format!("add_dynamic_type_item({}, {}, {}, up /{}, down *{}); ", fam, it.index, UNIT_NAMES[it.unit as usize % UNIT_NAMES.len()], it.up.max(2), it.down.max(2)));
+                    rendered.push_str(&format!("add_dynamic_type_item({}, {}, {:?}, up /{}, down *{}); ", fam, it.index, it.all_names(), it.up.max(2), it.down.max(2)));
                     // a unit name is used by one item only (fresh names are the author's obligation)
                     if m.items.iter().any(|x| x.unit % UNIT_NAMES.len() as u8 == it.unit % UNIT_NAMES.len() as u8) {
                         continue;
@@ -494,55 +602,9 @@ impl Prop for Registry {
                     if deleted_patterns.iter().any(|(lg, dp)| *lg == lang && *dp == p) {
                         delete_then_probe = true;
                     }
-                    // effect: when exactly one live rule can match this line, the line evaluates to what
-                    // that rule's behaviour computes from the NAMED fields; a declining rule leaves the
-                    // line exactly as on a calculator without any rule
-                    // every live pattern of that language that shares a keyword with the probe's pattern
-                    let kws = |q: &Pattern| -> Vec<u8> {
-                        if q.is_generic() {
-                            return vec![];
-                        }
-                        let mut v = vec![q.kw % KEYWORDS.len() as u8];
-                        if q.has_k() && q.layout % 6 == 3 {
-                            v.push(q.kw2 % KEYWORDS.len() as u8);
-                        }
-                        v
-                    };
-                    let mine = kws(&p);
-                    let sharing: Vec<(&RuleSpec, &Pattern)> = m.rules.iter().filter(|(lg, _)| *lg == lang).flat_map(|(_, s)| s.patterns.iter().map(move |q| (s, q))).filter(|(_, q)| kws(q).iter().any(|k| mine.contains(k))).collect();
-                    let candidates: Vec<&RuleSpec> = sharing.iter().map(|(s, _)| *s).collect();
-                    if sharing.len() == 1 && *sharing[0].1 == p && p.n != Field::Text {
-                        let spec = candidates[0];
-                        let n = *nv as f64;
-                        let k = if p.has_k() { *kv as f64 } else { 0.0 };
-                        match behave(&spec.behaviour, n, k) {
-                            Some(exp) => {
-                                let ok = match (&got, &exp) {
-                                    (Slot::Ok { v: V::Num(a, _), .. }, V::Num(e, _)) => close(*a, *e),
-                                    (Slot::Ok { v: V::Money(a, c), .. }, V::Money(e, ec)) => close(*a, *e) && c == ec,
-                                    (Slot::Ok { v: V::Pct(a), .. }, V::Pct(e)) => close(*a, *e),
-                                    (Slot::Ok { v: V::Dur(a, _), .. }, V::Dur(e, _)) => a == e,
-                                    _ => false,
-                                };
-                                if !ok {
-                                    acc.fail(format!("[{}] {:?} should evaluate to what rule {} returns ({:?} from n={}, k={}), got {}", lang, line, RULE_NAMES[spec.name as usize % 4], exp, n, k, got.brief()));
-                                    break;
-                                }
-                            }
-                            None => {
-                                let base = eval_on(&plain, &lang, &line).ok().and_then(|o| o.slots.into_iter().next()).unwrap_or(Slot::Nothing);
-                                if !base.same(&got) {
-                                    acc.fail(format!("[{}] {:?}: the rule declines, so the line should be as without the rule ({}), got {}", lang, line, base.brief(), got.brief()));
-                                    break;
-                                }
-                            }
-                        }
-                    } else if candidates.is_empty() {
-                        let base = eval_on(&plain, &lang, &line).ok().and_then(|o| o.slots.into_iter().next()).unwrap_or(Slot::Nothing);
-                        if !base.same(&got) {
-                            acc.fail(format!("[{}] {:?}: no live rule matches, so the line should be as on a calculator without rules ({}), got {}", lang, line, base.brief(), got.brief()));
-                            break;
-                        }
+                    if let Err(e) = effect(&calc, &plain, &m, &lang, &p, *nv, *kv, &got) {
+                        acc.fail(e);
+                        break;
                     }
                 }
                 Op::ConvertProbe(f, i, j, amount) => {
@@ -557,8 +619,8 @@ impl Prop for Registry {
                     }
                     let a = *i as usize % chain.len();
                     let b = *j as usize % chain.len();
-                    let ua = UNIT_NAMES[chain[a].unit as usize % UNIT_NAMES.len()];
-                    let ub = UNIT_NAMES[chain[b].unit as usize % UNIT_NAMES.len()];
+                    let ua = chain[a].written(*amount / 2);
+                    let ub = chain[b].written(*amount);
                     let line = format!("{} {} to {}", amount, ua, ub);
                     rendered.push_str(&format!("{:?}; ", line));
                     if rejected_dup {
@@ -600,19 +662,54 @@ impl Prop for Registry {
                 break;
             }
         }
+        // at the end: every live pattern has its effect, whatever was registered before or after its rule
+        let mut unit_rule_before_family = false;
+        if acc.ok() {
+            let live: Vec<(String, Pattern)> = m.rules.iter().flat_map(|(lg, s)| s.patterns.iter().map(move |q| (lg.clone(), q.clone()))).collect();
+            for (lang, p) in live {
+                for (nv, kv) in [(8u32, 2u32), (7, 1)] {
+                    let line = p.line(&lang, nv, kv);
+                    w.count_eval(2);
+                    match eval_on(&calc, &lang, &line) {
+                        Ok(o) => {
+                            let got = o.slots.into_iter().next().unwrap_or(Slot::Nothing);
+                            if let Err(e) = effect(&calc, &plain, &m, &lang, &p, nv, kv, &got) {
+                                acc.fail(format!("at the end of the history: {}", e));
+                            }
+                        }
+                        Err(pn) => acc.fail(format!("[{}] {:?} panicked at {}: {}", lang, line, pn.site, pn.message)),
+                    }
+                    if !acc.ok() {
+                        break;
+                    }
+                }
+                if let Field::Unit(Some(f), _) = p.n {
+                    // was the rule registered before its family?
+                    let fam = FAMILY_NAMES[f as usize % FAMILY_NAMES.len()];
+                    let rule_at = m.log.iter().position(|r| matches!(r, Reg::Rule(_, s, id) if !deleted.contains(id) && s.patterns.contains(&p)));
+                    let fam_at = m.log.iter().position(|r| matches!(r, Reg::Type(n) if n == fam));
+                    if let (Some(a), Some(b)) = (rule_at, fam_at) {
+                        unit_rule_before_family |= a < b;
+                    }
+                }
+                if !acc.ok() {
+                    break;
+                }
+            }
+        }
         if acc.ok() {
             builds += 1;
             differential(&calc, &m, &deleted, &mut acc, w, "at the end of the history");
         }
         let _ = builds;
-        acc.finish(rendered).nt(delete_then_probe || same_name_twice || rejected_dup_then_convert).class_if(delete_then_probe, "deleted-rule-probed-afterwards").class_if(same_name_twice, "two-rules-of-equal-name").class_if(rejected_dup_then_convert, "rejected-duplicate-then-conversion").class_if(!m.items.is_empty(), "has-user-family").class_if(m.rules.iter().any(|(l, _)| l == "tr"), "rule-in-tr")
+        acc.finish(rendered).nt(delete_then_probe || same_name_twice || rejected_dup_then_convert).class_if(delete_then_probe, "deleted-rule-probed-afterwards").class_if(same_name_twice, "two-rules-of-equal-name").class_if(rejected_dup_then_convert, "rejected-duplicate-then-conversion").class_if(!m.items.is_empty(), "has-user-family").class_if(unit_rule_before_family, "rule-over-a-user-family-registered-before-the-family").class_if(m.items.iter().any(|x| x.names % 3 == 1), "unit-with-names-not-in-alphabetical-order").class_if(m.rules.iter().any(|(l, _)| l == "tr"), "rule-in-tr")
     }
 }
 
 // ---- strategies --------------------------------------------------------------------------------
 
 pub fn pattern_strategy() -> impl Strategy<Value = Pattern> {
-    (0u8..10, 0u8..4, prop_oneof![5 => Just(Field::Number), 1 => Just(Field::Percent), 1 => Just(Field::Money), 1 => Just(Field::Text)], 0u8..8).prop_map(|(kw, layout, n, kw2)| Pattern { kw, layout, n, kw2: if kw2 == kw { (kw2 + 1) % 8 } else { kw2 }, kcase: (kw2 / 3) % 3 })
+    (0u8..10, 0u8..4, prop_oneof![5 => Just(Field::Number), 1 => Just(Field::Percent), 1 => Just(Field::Money), 1 => Just(Field::Text), 1 => (prop::option::weighted(0.7, 0u8..3), 0u8..10).prop_map(|(f, u)| Field::Unit(f, u))], 0u8..8).prop_map(|(kw, layout, n, kw2)| Pattern { kw, layout, n, kw2: if kw2 == kw { (kw2 + 1) % 8 } else { kw2 }, kcase: (kw2 / 3) % 3 })
 }
 
 pub fn rule_strategy() -> impl Strategy<Value = RuleSpec> {
@@ -629,7 +726,7 @@ pub fn op_strategy() -> impl Strategy<Value = Op> {
         5 => (prop_oneof![6 => Just(0u8), 2 => Just(1u8), 1 => Just(2u8)], rule_strategy()).prop_map(|(l, r)| Op::AddRule(l, r)),
         3 => (prop_oneof![6 => Just(0u8), 2 => Just(1u8), 1 => Just(2u8)], 0u8..4).prop_map(|(l, n)| Op::DeleteRule(l, n)),
         2 => (0u8..3).prop_map(Op::AddType),
-        4 => (0u8..3, 0u8..=5, 0u8..10, 2u8..=12, 2u8..=12).prop_map(|(family, index, unit, down, up)| Op::AddItem(ItemSpec { family, index, unit, down, up })),
+        4 => (0u8..3, 0u8..=5, 0u8..10, 2u8..=12, 2u8..=12, prop_oneof![2 => Just(0u8), 1 => Just(1u8), 1 => Just(2u8)]).prop_map(|(family, index, unit, down, up, names)| Op::AddItem(ItemSpec { family, index, unit, down, up, names })),
         6 => (any::<u8>(), 0u32..40, 0u32..40).prop_map(|(i, n, k)| Op::Probe(i, n, k)),
         3 => (0u8..3, any::<u8>(), any::<u8>(), 1u32..1000).prop_map(|(f, i, j, a)| Op::ConvertProbe(f, i, j, a)),
     ]
@@ -662,18 +759,31 @@ fn rule_block() -> impl Strategy<Value = Vec<Op>> {
 /// a family scenario: the family (sometimes registered twice), items 1..m in order with a duplicate
 /// index thrown in, conversions in both directions
 fn family_block() -> impl Strategy<Value = Vec<Op>> {
-    (0u8..3, any::<bool>(), 2usize..=5, prop::collection::vec((2u8..=12, 2u8..=12), 5), 0u8..10, prop::option::of((1u8..=5, 0u8..10)), prop::collection::vec((any::<u8>(), any::<u8>(), 1u32..1000), 1..=4), prop_oneof![3 => Just(1u8), 2 => Just(0u8), 1 => Just(3u8)]).prop_map(|(family, twice, m, factors, unit0, dup, convs, base)| {
-        let mut ops = vec![Op::AddType(family)];
+    let unit_rule = prop::option::weighted(0.5, (0u8..8, 0u8..3, 0usize..5, 0u8..50, any::<bool>(), prop::bool::weighted(0.8), 0u8..4));
+    (0u8..3, any::<bool>(), 2usize..=5, prop::collection::vec((2u8..=12, 2u8..=12, prop_oneof![2 => Just(0u8), 1 => Just(1u8), 1 => Just(2u8)]), 5), 0u8..10, prop::option::of((1u8..=5, 0u8..10)), prop::collection::vec((any::<u8>(), any::<u8>(), 1u32..1000), 1..=4), prop_oneof![3 => Just(1u8), 2 => Just(0u8), 1 => Just(3u8)], unit_rule).prop_map(|(family, twice, m, factors, unit0, dup, convs, base, unit_rule)| {
+        // a rule over quantities of this family, registered before the family exists or after its items
+        let rule = unit_rule.map(|(kw, layout, item, c, before, filtered, name)| {
+            let spec = RuleSpec { name, patterns: vec![Pattern { kw, layout, n: Field::Unit(if filtered { Some(family) } else { None }, (unit0 + (item % m) as u8) % 10), kw2: (kw + 1) % 8, kcase: 0 }], behaviour: Behaviour::Number(c) };
+            (before, Op::AddRule(0, spec))
+        });
+        let mut ops = vec![];
+        if let Some((true, r)) = &rule {
+            ops.push(r.clone());
+        }
+        ops.push(Op::AddType(family));
         if twice {
             ops.push(Op::AddType(family));
         }
         for i in 0..m {
-            ops.push(Op::AddItem(ItemSpec { family, index: i as u8 + base, unit: (unit0 + i as u8) % 10, down: factors[i].0, up: factors[i].1 }));
+            ops.push(Op::AddItem(ItemSpec { family, index: i as u8 + base, unit: (unit0 + i as u8) % 10, down: factors[i].0, up: factors[i].1, names: factors[i].2 }));
             if let Some((di, du)) = dup {
                 if di as usize == i + 1 {
-                    ops.push(Op::AddItem(ItemSpec { family, index: i as u8 + base, unit: (unit0 + 5 + du) % 10, down: 9, up: 9 }));
+                    ops.push(Op::AddItem(ItemSpec { family, index: i as u8 + base, unit: (unit0 + 5 + du) % 10, down: 9, up: 9, names: 0 }));
                 }
             }
+        }
+        if let Some((false, r)) = &rule {
+            ops.push(r.clone());
         }
         ops.extend(convs.into_iter().map(|(i, j, a)| Op::ConvertProbe(family, i, j, a)));
         ops
@@ -705,8 +815,10 @@ pub fn regressions() -> Vec<History> {
         History { ops: vec![Op::AddRule(0, RuleSpec { name: 2, patterns: vec![p(3, 2), p(4, 3)], behaviour: Behaviour::Number(0) }), Op::Probe(0, 10, 1), Op::Probe(1, 10, 1)] },
         // unknown language (F04)
         History { ops: vec![Op::AddRule(2, RuleSpec { name: 0, patterns: vec![p(0, 0)], behaviour: Behaviour::Number(5) }), Op::DeleteRule(2, 0)] },
+        // a rule over quantities of a user family, registered before the family
+        History { ops: vec![Op::AddRule(0, RuleSpec { name: 0, patterns: vec![Pattern { kw: 0, layout: 0, n: Field::Unit(Some(0), 0), kw2: 1, kcase: 0 }], behaviour: Behaviour::Number(5) }), Op::AddType(0), Op::AddItem(ItemSpec { family: 0, index: 1, unit: 0, down: 2, up: 3, names: 1 }), Op::AddItem(ItemSpec { family: 0, index: 2, unit: 1, down: 2, up: 3, names: 2 }), Op::Probe(0, 6, 0), Op::ConvertProbe(0, 0, 1, 24), Op::ConvertProbe(0, 1, 0, 5), Op::ConvertProbe(0, 0, 1, 9), Op::ConvertProbe(0, 1, 0, 10)] },
         // a user family, duplicates rejected, conversion both ways
-        History { ops: vec![Op::AddType(0), Op::AddType(0), Op::AddItem(ItemSpec { family: 0, index: 1, unit: 0, down: 2, up: 3 }), Op::AddItem(ItemSpec { family: 0, index: 2, unit: 1, down: 3, up: 4 }), Op::AddItem(ItemSpec { family: 0, index: 2, unit: 2, down: 9, up: 9 }), Op::AddItem(ItemSpec { family: 0, index: 3, unit: 3, down: 4, up: 5 }), Op::AddItem(ItemSpec { family: 1, index: 1, unit: 4, down: 2, up: 2 }), Op::ConvertProbe(0, 0, 2, 24), Op::ConvertProbe(0, 2, 0, 2), Op::ConvertProbe(0, 1, 0, 5)] },
+        History { ops: vec![Op::AddType(0), Op::AddType(0), Op::AddItem(ItemSpec { family: 0, index: 1, unit: 0, down: 2, up: 3, names: 0 }), Op::AddItem(ItemSpec { family: 0, index: 2, unit: 1, down: 3, up: 4, names: 0 }), Op::AddItem(ItemSpec { family: 0, index: 2, unit: 2, down: 9, up: 9, names: 0 }), Op::AddItem(ItemSpec { family: 0, index: 3, unit: 3, down: 4, up: 5, names: 0 }), Op::AddItem(ItemSpec { family: 1, index: 1, unit: 4, down: 2, up: 2, names: 0 }), Op::ConvertProbe(0, 0, 2, 24), Op::ConvertProbe(0, 2, 0, 2), Op::ConvertProbe(0, 1, 0, 5)] },
     ]
 }
 
